@@ -32,6 +32,16 @@ def solve(constraints, goal, names=None, timeout_ms=None):
     for c in constraints:
         s.add(c)
     s.add(z3.Not(goal))
+    if _is_easy(list(constraints) + [goal]):
+        # linear / propositional / uninterpreted: z3 decides these reliably in-process
+        s.set("timeout", 5000)
+        res = s.check()
+        dt = time.time() - t0
+        if res == z3.unsat:
+            return DISCHARGED, "z3", dt, None, "unsat"
+        if res == z3.sat:
+            return REFUTED, "z3", dt, model_to_json(s.model(), names or {}), "sat"
+        s.set("timeout", int(tmo * 1000))
     r, w = os.pipe()
     pid = os.fork()
     if pid == 0:
@@ -87,6 +97,43 @@ def solve(constraints, goal, names=None, timeout_ms=None):
     if st == "sat":
         return REFUTED, "cvc5", dt, {}, f"z3 unknown ({reason}); cvc5 sat (no model extracted)"
     return UNDECIDED, "z3+cvc5", dt, None, f"z3 unknown ({reason}); cvc5 {det}"
+
+
+_HARD_KINDS = None
+
+
+def _is_easy(terms, budget=20000):
+    """no nonlinear arithmetic, quantifiers, sequences or strings"""
+    seen = set()
+    stack = [t for t in terms if z3.is_expr(t)]
+    n = 0
+    while stack:
+        t = stack.pop()
+        i = t.get_id()
+        if i in seen:
+            continue
+        seen.add(i)
+        n += 1
+        if n > budget:
+            return False
+        if z3.is_quantifier(t):
+            return False
+        if z3.is_app(t):
+            k = t.decl().kind()
+            if k == z3.Z3_OP_MUL:
+                if sum(0 if (z3.is_rational_value(a) or z3.is_int_value(a)) else 1 for a in t.children()) > 1:
+                    return False
+            elif k in (z3.Z3_OP_DIV, z3.Z3_OP_IDIV, z3.Z3_OP_MOD, z3.Z3_OP_REM):
+                d = t.arg(1)
+                if not (z3.is_rational_value(d) or z3.is_int_value(d)):
+                    return False
+            elif k == z3.Z3_OP_POWER:
+                return False
+            srt = t.sort().kind()
+            if srt in (z3.Z3_SEQ_SORT, z3.Z3_RE_SORT, z3.Z3_ARRAY_SORT):
+                return False
+            stack.extend(t.children())
+    return True
 
 
 def _cvc5(solver):
